@@ -33,11 +33,11 @@ def handle (fn : String) (a : Json) : R Json := do
   match fn with
   | "unary" =>
     let c ← cfg (← field a "cfg")
-    pure (respJson (unaryRespond' c (← natF a "pre") (← natF a "eos") (← natF a "errBody") (← batch (← field a "r"))
+    pure (respJson (unaryRespond' c (← natF a "schema") (← natF a "pre") (← natF a "eos") (← natF a "errWire") (← batch (← field a "r"))
       (← natF a "framed") (← natF a "ptr")))
   | "exchange" =>
     let c ← cfg (← field a "cfg")
-    pure (respJson (exchangeTurn' c (← natF a "pre") (← natF a "eos") (← natF a "errBody") (← payload (← field a "p"))))
+    pure (respJson (exchangeTurn' c (← natF a "pre") (← natF a "eos") (← natF a "errWire") (← payload (← field a "p"))))
   | "producer" =>
     let c ← cfg (← field a "cfg")
     let script ← (← arrF a "script").mapM iter
